@@ -141,7 +141,7 @@ def main(tier=None, replay=None):
         A = np.asarray(_jacobian_crtbp(x0[0], x0[1], x0[2], mu0), dtype=float)
         kw = {"rtol": 1e-12, "atol": 1e-12} if method == "adaptive" else {}
         label = f"earth-moon|{method}{order}|tf={tf:g}|default-steps|{kind}|forward={fwd}"
-        t = cs.trace(label, {"short_span_stm": -30, "short_span_state": -30}, {"forward": fwd, "part": "short-span"})
+        t = cs.trace(label, {"short_span_stm": -15, "short_span_state": -15}, {"forward": fwd, "part": "short-span"})
         ck.count(("stm-short-span", label), True)
         xs, times, Phi, PHI = _compute_stm(em0.var_dynsys, x0, tf, forward=fwd, method=method, order=order, **kw)
         lin = fwd * tf * A
